@@ -115,6 +115,23 @@ def fam_star_distinct(n):
     return _hdr(_flat(n), _distinct(_edges_star(n)))
 
 
+def fam_island_outpost_shared(n):
+    """an island model over n-1 demes plus one further deme exchanging migrants with d0 only, all at one rate: one
+    (rate, None, None) class that is a clique plus a pendant pair (polynomial: the clique is found at the first size tried)"""
+    return _hdr(_flat(n), [{"demes": [f"d{i}" for i in range(n - 1)], "rate": RATE}, {"demes": ["d0", f"d{n-1}"], "rate": RATE}]
+                if n > 2 else [{"demes": ["d0", "d1"], "rate": RATE}])
+
+
+def fam_admix_ladder(n):
+    """ancestry DAG with many paths: deme i is an admixture of demes i-1 and i-2 (the number of ancestry PATHS to a root
+    grows like the Fibonacci numbers, the number of demes and edges linearly); every deme lives to time 0"""
+    ds = [{"name": "d0", "epochs": [{"start_size": 100}]}, {"name": "d1", "epochs": [{"start_size": 101}]}]
+    for i in range(2, n):
+        ds.append({"name": f"d{i}", "ancestors": [f"d{i-1}", f"d{i-2}"], "proportions": [0.5, 0.5], "start_time": 10 * (n - i),
+                   "epochs": [{"start_size": 100 + i}]})
+    return _hdr(ds[:max(n, 2)])
+
+
 def fam_chain(n):
     """chain of ancestry: deme i descends from deme i-1"""
     ds = [{"name": "d0", "epochs": [{"start_size": 100, "end_time": 10 * n}]}]
@@ -180,6 +197,8 @@ FAMILIES = {
     "ring_per_edge": (fam_ring_per_edge, False, "lin"),
     "star_per_edge": (fam_star_per_edge, False, "lin"),
     "chain": (fam_chain, False, "lin"),
+    "island_outpost_shared": (fam_island_outpost_shared, True, "quad"),
+    "admix_ladder": (fam_admix_ladder, False, "lin"),
     "epochs": (fam_epochs, False, "lin"),
     "pulses_distinct": (fam_pulses_distinct, False, "lin"),
     "pulses_same": (fam_pulses_same, False, "lin"),
@@ -307,7 +326,7 @@ if __name__ == "__main__" and len(sys.argv) >= 3 and sys.argv[1] == "--child":
 # parent
 # ----------------------------------------------------------------------------------------------
 
-RULE = ("16 model families (islands/cliques, rings, paths, stars with one shared rate and with pairwise distinct rates, "
+RULE = ("18 model families (islands/cliques, an island model with a pendant pair, an admixture ladder, rings, paths, stars with one shared rate and with pairwise distinct rates, "
         "clique with distinct time bounds, ancestry chain, one deme with n epochs, n pulses at distinct times / at one "
         "time, n migrations over alternating intervals) x 11 public operations x sizes 4..40 (4..20 for families with "
         "n^2 migrations, 4..16/18 for the shared-rate search); a case is one (family, operation, size) line count; "
@@ -456,7 +475,7 @@ def run(ctx):
             if why:
                 case = {"family": fam, "operation": op, "sizes": [n for n, _ in series], "counts": [c for _, c in series]}
                 n_bad = (why[0].get("sizes") or [why[0].get("size")] or [series[-1][0]])[-1] or series[-1][0]
-                if op in SIMPLIFY_OPS and shared and fam != "island_shared":
+                if op in SIMPLIFY_OPS and shared and fam not in ("island_shared", "island_outpost_shared"):
                     # (a complete clique with one rate is found at the first subset: polynomial on the
                     # unchanged tree, so a blow-up there is NOT the known finding)
                     what = F9_PREFIX + f"family {fam}, operation {op}"
